@@ -20,7 +20,9 @@ func c09HeavyRun(ctx *core.RunCtx) {
 	ev := cc.eval.ShallowCopy() // an evaluator of this run (the cached one stays pristine)
 	g := core.NewXoshiro(uint64(ch.Draw("content-seed", 1<<20)))
 	ctx.Nontrivial = true
-	switch ch.Draw("heavy-op", 4) {
+	switch ch.Draw("heavy-op", 6) {
+	case 4, 5:
+		c09CircuitsRun(ctx, g)
 	case 0:
 		in := cc.cts[0].CopyNew()
 		h := hashCt(in)
